@@ -32,7 +32,7 @@ func checkC04(c *Ctx, r *Report) {
 		if f.Pkg == nil || skipPkgForOwn(f.Pkg.Pkg.Path()) {
 			continue
 		}
-		allInstrs(f, func(in ssa.Instruction) {
+		allInstrsIn(f, func(in ssa.Instruction) {
 			ci, ok := in.(ssa.CallInstruction)
 			if !ok {
 				return
